@@ -123,7 +123,7 @@ func (w *c05World) runSession(sess int, sched int) {
 	switch sched {
 	case schedCutInID:
 		c1.conn.Feed(id[:5])
-		c1.conn.Cut()
+		c1.conn.CutAbrupt()
 	default:
 		c1.conn.Feed(id[:])
 		send(c1, 0)
@@ -148,12 +148,12 @@ func (w *c05World) runSession(sess int, sched int) {
 	case schedCutInPrefix:
 		f := frame(upPacket(sess, c1.idx, 1, 100))
 		c1.conn.Feed(f[:1])
-		c1.conn.Cut()
+		c1.conn.CutAbrupt()
 		second()
 	case schedCutInBody:
 		f := frame(upPacket(sess, c1.idx, 1, 100))
 		c1.conn.Feed(f[:40])
-		c1.conn.Cut()
+		c1.conn.CutAbrupt()
 		second()
 	case schedCutAtEdge:
 		c1.conn.Cut()
@@ -165,7 +165,7 @@ func (w *c05World) runSession(sess int, sched int) {
 		c2.conn.Feed(id[:])
 		send(c2, 0)
 		vs.Sleep(time.Second)
-		c1.conn.Cut()
+		c1.conn.CutAbrupt()
 		vs.Sleep(time.Second)
 		send(c2, 1)
 		vs.Sleep(time.Second)
@@ -173,7 +173,11 @@ func (w *c05World) runSession(sess int, sched int) {
 	case schedGap30, schedGap59, schedGap61, schedGap95:
 		send(c1, 1)
 		vs.Sleep(time.Second)
-		c1.conn.Cut()
+		if sched == schedGap59 || sched == schedGap95 {
+			c1.conn.CutAbrupt()
+		} else {
+			c1.conn.Cut()
+		}
 		gap := map[int]time.Duration{schedGap30: 30 * time.Second, schedGap59: 59 * time.Second, schedGap61: 61 * time.Second, schedGap95: 95 * time.Second}[sched]
 		// while no carrier is up the bridge side sends something (KCP writes it to the session's
 		// ClientID): it must be kept for the next carrier if that comes within the retention time
